@@ -60,7 +60,12 @@ def _atnums(ctx, natom, probes):
     z = np.array([6, 1, 8, 7][:1] * natom)
     for i in range(natom):
         z[i] = [6, 1, 8, 7, 16][i % 5]
-    pair = ctx.choice(ZMENU, label="Z")
+    if ctx.scratch.get("every_element"):
+        # one job per format walks through the whole periodic table (two neighbouring elements per path)
+        k = ctx.choice(list(range(1, 119, 2)), label="Z")
+        pair = (k, min(k + 1, 118))
+    else:
+        pair = ctx.choice(ZMENU, label="Z")
     for n, p in enumerate(probes[:2]):
         z[p] = pair[n]
     return z
@@ -657,6 +662,9 @@ def h_roundtrip(ctx, fmt="xyz", natom=2, variant="default", prop="C02", policy="
 
 
 def _h_roundtrip(ctx, fmt, natom, variant, prop, policy, twin):
+    if variant.endswith("+elements"):
+        variant = variant[:-len("+elements")]
+        ctx.scratch["every_element"] = True
     import iodata.api as api
     from iodata.iodata import IOData
     from iodata.utils import DumpError, LoadError, PrepareDumpError
